@@ -85,7 +85,7 @@ THEOREMS = {
                      "Abnf.Obl.Meta.meta_plain", "Abnf.C05.rfc_wf", "Abnf.C05.rfc_plain", "Abnf.wfCheck_sound",
                      "Abnf.sub_sound", "Abnf.equiv_pairs", "Abnf.C05.equiv_ok", "Abnf.C05.pairs_cover_reader", "Abnf.C05.pairs_same_name",
                      "Abnf.C05.pairs_cover_rfc_section4", "Abnf.C05.reader_equiv_rfc", "Abnf.C05.reader_exact_wrt_rfc",
-                     "Abnf.Obl.Meta.meta_closed", "Abnf.accepts_iff_derivable_on", "Abnf.C05.accepted_iff_abnf"],
+                     "Abnf.Obl.Meta.meta_closed", "Abnf.accepts_iff_derivable_on", "Abnf.C05.accepted_iff_abnf", "Abnf.C05.reader_exact_wrt_rfc'"],
     },
     "C09": {
         "modules": ["Abnf.Theorems.C09", "Abnf.Theorems.C11"],
@@ -104,7 +104,8 @@ THEOREMS = {
         "theorems": ["Abnf.C09.bundled_rule_total_and_sound", "Abnf.sub_sound", "Abnf.equiv_pairs", "Abnf.Obl.Meta.meta_wf",
                      "Abnf.C15.seeds_7405", "Abnf.C15.equiv_ok_7405", "Abnf.C15.reader_equiv_rfc7405", "Abnf.C15.seeds_5234",
                      "Abnf.C15.equiv_ok_5234", "Abnf.C15.reader_equiv_rfc5234",
-                     "Abnf.lparse_complete_on", "Abnf.plainOnG_sound", "Abnf.C15.reach_plain_7405", "Abnf.C15.accepted_alike_rfc7405"],
+                     "Abnf.lparse_complete_on", "Abnf.plainOnG_sound", "Abnf.C15.reach_plain_7405", "Abnf.C15.accepted_alike_rfc7405",
+                     "Abnf.C15.meta5234_wf", "Abnf.C15.reach_plain_5234", "Abnf.C15.accepted_alike_rfc5234"],
     },
     "C19": {
         "modules": ["Abnf.Theorems.C19", "Abnf.Obligations.BundledFacts", "Abnf.Theorems.C01"],
